@@ -13,10 +13,10 @@ import functools
 from .values import sig
 from .driver import make_exc
 
-ASYNC_FLAVOURS = ("agen", "aclass", "aclass_noclose", "aplain", "agenlike")
+ASYNC_FLAVOURS = ("agen", "aclass", "aclass_noclose", "aplain", "agenlike", "aeager")
 SYNC_FLAVOURS = ("list", "seq", "iter", "tuple", "tuplesub")
 SRC_FLAVOURS = ASYNC_FLAVOURS + SYNC_FLAVOURS
-FN_FLAVOURS = ("def", "async", "partial", "obj", "objaw")
+FN_FLAVOURS = ("def", "async", "partial", "obj", "objaw", "falsyobj")
 
 
 class SourceBase:
@@ -199,6 +199,33 @@ class AClassSource(SourceBase):
     obj = property(lambda self: self)
 
 
+class _Ready:
+    """awaitable carrying an outcome that was computed when __anext__ was CALLED"""
+
+    __slots__ = ("src", "item", "stop")
+
+    def __init__(self, src, item, stop):
+        self.src, self.item, self.stop = src, item, stop
+
+    def __await__(self):
+        for _ in range(self.src.susp):
+            yield from self.src.ctx.suspend((self.src.name, "pull")).__await__()
+        if self.stop:
+            raise StopAsyncIteration
+        return self.item
+
+
+class AEagerSource(AClassSource):
+    """``__anext__`` is a plain method that consumes the next item at once, when it is called, and returns
+    an awaitable for it: calling ``__anext__`` ahead of time (before awaiting) is an observable read-ahead."""
+
+    def __anext__(self):
+        if not self._begin():
+            return _Ready(self, None, True)
+        ok, item = self._finish()
+        return _Ready(self, item, not ok)
+
+
 class AGenLikeSource(AClassSource):
     """Class based iterator offering the whole generator interface (aclose, asend, athrow) without being
     an async generator.  The library has no business sending or throwing into a source it was given:
@@ -319,6 +346,7 @@ _SRC_CLASSES = {
     "aclass_noclose": AClassNoCloseSource,
     "aplain": APlainSource,
     "agenlike": AGenLikeSource,
+    "aeager": AEagerSource,
     "list": ListSource,
     "tuple": TupleSource,
     "tuplesub": TupleSubSource,
@@ -446,6 +474,20 @@ class Fn:
                 return await coro(*args)
 
             return functools.partial(coro2, "extra")
+        if fl == "falsyobj":
+            outer2 = self
+
+            class FalsyCallable:
+                """a callable object that is falsy (e.g. a container of handlers that is empty)"""
+
+                def __bool__(self_inner):  # noqa: N805
+                    return False
+
+                def __call__(self_inner, *args):  # noqa: N805
+                    outer2.invoked += 1
+                    return outer2._result(args)
+
+            return FalsyCallable()
         if fl == "objaw":
 
             class _Aw:
